@@ -255,24 +255,27 @@ def goTypeAll : List TypeInfo → GoT
     | .ok => goTypeAll ts
     | e => e
 
-/-- Iter.RowData: column names (a tuple column contributes `name[i]` per element); `err` when
-    NewWithError fails for some column / tuple element, `crash` when it panics -/
+/-- the body of Iter.RowData's loop for one column: a tuple column contributes `name[i]` per
+    element (`elem.NewWithError()` each), any other column `name` (`column.TypeInfo.NewWithError()`) -/
+def rowDataCol (c : ColumnInfo) : Outcome (List Bytes) :=
+  match c.typ with
+  | .tuple _ elems =>
+    (match goTypeAll elems with
+     | .ok => .ok ((List.range elems.length).map (tupleColumnName c.name))
+     | .err => .err
+     | .crash => .crash)
+  | t =>
+    (match goType t with
+     | .ok => .ok [c.name]
+     | .err => .err
+     | .crash => .crash)
+
+/-- Iter.RowData: the column names; `err` when NewWithError fails for some column / tuple element,
+    `crash` when it panics -/
 def rowDataColumns : List ColumnInfo → Outcome (List Bytes)
   | [] => .ok []
   | c :: cs =>
-    let here : Outcome (List Bytes) :=
-      match c.typ with
-      | .tuple _ elems =>
-        (match goTypeAll elems with
-         | .ok => .ok ((List.range elems.length).map (tupleColumnName c.name))
-         | .err => .err
-         | .crash => .crash)
-      | t =>
-        (match goType t with
-         | .ok => .ok [c.name]
-         | .err => .err
-         | .crash => .crash)
-    match here with
+    match rowDataCol c with
     | .ok names =>
       (match rowDataColumns cs with
        | .ok rest => .ok (names ++ rest)
